@@ -425,6 +425,20 @@ PairsCtx ==
             : t2 \in Loosen1Top(Top(ta, tb, m))}
          : ta \in TAc, tb \in TBc, m \in TMc, other \in OtherInputs, which \in {"inputs", "dinputs"},
            root \in {V("inputs"), GithubInputs}}
+\* Two updates of the same context (UpdateInputs then UpdateDispatchInputs merge into `inputs`): one of the two
+\* arguments is loosened -- also down to the open, property-less object (an `inputs` section whose members are not
+\* known) -- the other one fixed, closed or open, with or without members; `.c` is held by one side only.
+UpdT == {Obj(<<P("c", String)>>, Strict), Obj(<<P("a", Number), P("c", String)>>, Strict), Obj(<<P("c", String)>>, AnyT),
+         Obj(<<>>, String), Obj(<<>>, Strict)}
+UpdOther == {Obj(<<P("a", Bool)>>, Strict), Obj(<<>>, Strict), Obj(<<>>, AnyT), Obj(<<P("a", Bool)>>, AnyT)}
+\* (dropping the members is only a loosening where the other argument does not define them too: Merge keeps the
+\* other side's precise type for a key the open operand lacks -- see the note at PairsMrg)
+UpdLoosen(t, other) == Loosen1Top(t) \cup (IF t = Obj(<<>>, AnyT) \/ Names(t) \cap Names(other) # {} THEN {} ELSE {Obj(<<>>, AnyT)})
+PairsUpd ==
+  UNION {{Pair("ctx", [With(which, t) EXCEPT ![Flip(which)] = other],
+                      [With(which, t2) EXCEPT ![Flip(which)] = other], V("inputs"), V("inputs"), 0)
+            : t2 \in UpdLoosen(t, other)}
+         : t \in UpdT, other \in UpdOther, which \in {"inputs", "dinputs"}}
 PairsUse ==
   UNION {{Pair("use", With("matrix", Obj(<<P("a", x), P("b", y)>>, Strict)),
                       With("matrix", Obj(<<P("a", x2), P("b", y)>>, Strict)),
@@ -451,7 +465,7 @@ PairsMrg ==
      : x \in {y \in {"||", "&&"} \X MrgLits \X MrgLits \X {"l", "r"}
                      \X {Prop(V("github"), "event"), Call("fromJSON", <<Prop(V("env"), "x")>>)}
                 : JNames(y[2]) \cap JNames(y[3]) = {}}}
-Pairs == (IF "acc" \in Fams THEN PairsAcc ELSE {}) \cup (IF "ctx" \in Fams THEN PairsCtx ELSE {})
+Pairs == (IF "acc" \in Fams THEN PairsAcc ELSE {}) \cup (IF "ctx" \in Fams THEN PairsCtx \cup PairsUpd ELSE {})
          \cup (IF "use" \in Fams THEN PairsUse ELSE {}) \cup (IF "fj" \in Fams THEN PairsFj ELSE {})
          \cup (IF "mrg" \in Fams THEN PairsMrg ELSE {})
 PairSeq == SetToSeq(Pairs)
